@@ -79,7 +79,7 @@ Definition upc_ok (t : tid) (l : local) : Prop :=
   | PSendCS _ _, [] => True
   | PSendSig _ _, [] => True
   | PRecvAbsorb CO _, [] | PRecvCS CO _, [] | PRecvGot CO _ _, [] | PRecvNone CO _, [] | PRecvPark CO _, [] => t = 0
-  | PStartRead, [] | PStartSpawn _, [] | PStartSig _, [] | PShutdown _, [] | PGetSock, [] => t = 0
+  | PStartRead, [] | PStartSpawn _, [] | PStartSpawned, [] | PStartCheck, [] | PStartSig _, [] | PShutdown _, [] | PGetSock, [] => t = 0
   | PJoinTest, [] | PJoinWait, [] | PJoinTest, [KDiscard] | PJoinWait, [KDiscard] => t = 0
   | _, _ => False
   end.
@@ -107,14 +107,15 @@ Record wf (m e : bool) (s : sys) : Prop := mkWf {
 }.
 
 Section Wf.
+Variable early : bool.
 Variable absorb_n : nat.
 Variable react : nat -> list msg * bool.
 Variable ok : label -> bool.
 Variables smode emode : bool.
 
-Notation step := (step absorb_n react).
-Notation sys_step := (sys_step absorb_n react).
-Notation reachable_if := (reachable_if absorb_n react).
+Notation step := (step early absorb_n react).
+Notation sys_step := (sys_step early absorb_n react).
+Notation reachable_if := (reachable_if early absorb_n react).
 
 Lemma upd_same : forall f t v, upd f t v t = v.
 Proof. intros. unfold upd. rewrite Nat.eqb_refl. reflexivity. Qed.
@@ -203,9 +204,13 @@ Inductive Step : choice -> gst -> local -> gst -> local -> list ev -> Prop :=
     Step CRun g (mkL PStartRead k) g (mkL p k') ([] ++ e')
 | S_StartRead_go : forall g k,
     g_running g = false ->
-    Step CRun g (mkL PStartRead k) g (mkL (PStartSpawn (negb (is_nil (c_q (g_ci g))))) k) []
+    Step CRun g (mkL PStartRead k) g (mkL (PStartSpawn (if early then negb (is_nil (c_q (g_ci g))) else false)) k) []
 | S_StartSpawn : forall g k needs,
-    Step CRun g (mkL (PStartSpawn needs) k) (spawned (alloc_sockets g)) (mkL (PStartSig needs) k) [EFork]
+    Step CRun g (mkL (PStartSpawn needs) k) (spawned (alloc_sockets g))
+         (mkL (if early then PStartSig needs else PStartSpawned) k) [EFork]
+| S_StartSpawned : forall g k, Step CRun g (mkL PStartSpawned k) g (mkL PStartCheck k) []
+| S_StartCheck : forall g k,
+    Step CRun g (mkL PStartCheck k) g (mkL (PStartSig (negb (is_nil (c_q (g_ci g))))) k) [EDump]
 | S_StartSig_yes : forall g k g' e p k' e',
     signal CI g = (g', e) -> ret react (g_evd g') ROk k = (p, k', e') ->
     Step CRun g (mkL (PStartSig true) k) g' (mkL p k') (e ++ e')
@@ -256,9 +261,10 @@ Proof.
   unfold ThreadQ.step, goto, fin in H. simpl in H.
   destruct p; destruct c; try discriminate;
     try (inv H; apply S_IExit; fail);
+    try (inv H; apply S_StartSpawn; fail);
     repeat match type of H with
-    | context [match ?x with _ => _ end] => destruct x eqn:?
-    | context [if ?x then _ else _] => destruct x eqn:?
+    | context [match ?x with _ => _ end] => lazymatch x with early => fail | _ => destruct x eqn:? end
+    | context [if ?x then _ else _] => lazymatch x with early => fail | _ => destruct x eqn:? end
     end; try discriminate; inv H;
     try (econstructor; eauto; congruence).
   - apply S_IStartupCS_empty. destruct (c_q (g_co g')); [reflexivity | discriminate].
@@ -283,7 +289,8 @@ Proof.
     | x : chanid |- _ => destruct x
     | x : msg |- _ => destruct x
     end; try contradiction;
-    destr_k k; kill_ret; simpl; auto.
+    destr_k k; kill_ret; simpl; auto;
+    try (destruct early; simpl; auto).
 Qed.
 
 (* a step of the internal thread keeps it inside its role, until it finishes *)
@@ -470,6 +477,7 @@ Proof.
     + (* a pending spawn means the thread is not running *)
       intros n. unfold upd. destruct (Nat.eqb_spec 0 t) as [Ht | Ht].
       * subst t. intros Hn. inversion Hst; subst; simpl in Hn; try discriminate;
+          try (destruct early; discriminate);
           try (apply (Hsp false); reflexivity); try assumption;
           unfold upc_ok in Hu; simpl in Hu;
           repeat match goal with x : chanid |- _ => destruct x | x : msg |- _ => destruct x end;
